@@ -41,3 +41,33 @@ Theorem c10_core_never_fails : forall noise e s,
 Proof. intros noise e s Hn He Hs Hq. destruct (analysis_succeeds_any_provider noise e s Hn He Hs Hq) as [g [H _]]. exists g. exact H. Qed.
 Print Assumptions c10_core_never_fails.
 
+(** * The contract on ALL segment trees (not only rendered ones), every statement type, every environment, both modes.
+    [escape_free] is an executable conjunction of seven local shape conditions (Tree/TotalDefs.v; one counterexample tree
+    per condition in Tree/TotalTop.v); the harness evaluates it on every tree the real parser produces.  Partial in one
+    respect: [Err EValue] (add_edge(None, ..) when a target column has two candidate parents) is not excluded. *)
+From SV Require Import Tree.TotalDefs Tree.TotalTop.
+Theorem c10_total_on_all_trees_partial : forall e silent t,
+  escape_free t = true ->
+  match analyze e silent t with Ok _ => True | Err k => allowed_err k = true \/ k = EValue end.
+Proof. exact TotalTop.c10_total_on_all_trees_partial. Qed.
+Print Assumptions c10_total_on_all_trees_partial.
+
+Theorem c10_never_out_of_fuel : forall f e k stmt,
+  escape_free stmt = true -> depth stmt <= f -> extract f e k stmt empty_ctx <> Err EFuel.
+Proof. exact TotalTop.extract_never_out_of_fuel. Qed.
+Print Assumptions c10_never_out_of_fuel.
+
+(** each escape condition is needed: a tree violating only it ends in IndexError *)
+Theorem c10_escape_conditions_needed :
+  (analyze TotalTop.env0 false cx_L1 = Err EIndex /\ escape_free cx_L1 = false) /\
+  (analyze TotalTop.env0 false cx_L2 = Err EIndex /\ escape_free cx_L2 = false) /\
+  (analyze TotalTop.env0 false cx_L4 = Err EIndex /\ escape_free cx_L4 = false) /\
+  (analyze TotalTop.env0 false cx_L5 = Err EIndex /\ escape_free cx_L5 = false) /\
+  (analyze TotalTop.env0 false cx_L6 = Err EIndex /\ escape_free cx_L6 = false).
+Proof. repeat split; first [apply cx_L1_escapes|apply cx_L2_escapes|apply cx_L4_escapes|apply cx_L5_escapes|apply cx_L6_escapes]. Qed.
+Print Assumptions c10_escape_conditions_needed.
+
+(** regression witness of fix F11: the MERGE tree without an identified target, which used to end in IndexError, is analysed *)
+Theorem c10_merge_without_target_repaired : (exists g, analyze TotalTop.env0 false cx_L7a = Ok g) /\ escape_free cx_L7a = true.
+Proof. exact cx_L7a_repaired. Qed.
+Print Assumptions c10_merge_without_target_repaired.
